@@ -12,7 +12,7 @@ import common as C
 sc = C.mkscratch("setup")
 try:
     mod = C.assemble(sc)
-    for pkg in ("drvproto", "drvstore", "drvcompact", "drvtable"):
+    for pkg in ("drvproto", "drvstore", "drvcompact", "drvtable", "drvfault"):
         C.gobuild(mod, pkg, sc + "/" + pkg)
     for pkg in ():
         C.gobuild(mod, pkg, sc + "/" + pkg)
